@@ -664,12 +664,12 @@ def seq_method(interp, recv, name, args, kwargs):
         if interp.truth(mk_bool(n < 2 * len(args[0]))):
             axiom("bytes.replace(old, new) on a value shorter than two copies of old: the first occurrence, if any, is substituted")
             return core._seq_value(z3.Replace(t, seq_term(args[0]), seq_term(args[1])), kind)
-        if len(args[0]) == 1 and interp.truth(mk_bool(n <= 4)):
+        if len(args[0]) == 1 and interp.truth(mk_bool(n <= 8)):
             # a one-byte pattern on a short value: substitute byte by byte (exact)
             axiom("bytes.replace with a one-byte pattern acts on every byte independently")
             old_e = seq_term(args[0])[0]
             new_t = seq_term(args[1])
-            for k in range(0, 5):
+            for k in range(0, 9):
                 if interp.truth(mk_bool(n == k)):
                     parts = [z3.If(t[j] == old_e, new_t, z3.Unit(t[j])) for j in range(k)]
                     if not parts:
